@@ -161,5 +161,17 @@ m("c17-desc-typo",["C17"],"internal/zex/all.go","\"<rrd,rld>\",","\"<rrd,rld> \"
 m("c17-status-bytes-order",["C17"],"internal/zex/zex.go","\tbuf[6], buf[7] = fromU16(s.IY)\n\tbuf[8], buf[9] = fromU16(s.IX)","\tbuf[6], buf[7] = fromU16(s.IX)\n\tbuf[8], buf[9] = fromU16(s.IY)")
 m("c17-table-reordered",["C17"],"internal/zex/doc.go","\tDocADC16,\n\tDocADD16,\n","\tDocADD16,\n\tDocADC16,\n",expect="silent",note="order of the cases is not part of the property")
 
+# ---- C15
+m("c15-map-default",["C15"],"memio.go","\t\treturn 0xC7 // RST 0","\t\treturn 0x00 // NOP")
+m("c15-dumbmemory-get-off-by-one",["C15","C12"],"memio.go","func (dm DumbMemory) Get(addr uint16) uint8 {\n\tif int(addr) >= len(dm) {","func (dm DumbMemory) Get(addr uint16) uint8 {\n\tif int(addr) > len(dm) {")
+m("c15-clone-returns-receiver",["C15"],"memio.go","\tcl := MapMemory{}\n\tfor k, v := range mm {\n\t\tcl[k] = v\n\t}\n\treturn cl","\tcl := mm\n\tfor k, v := range mm {\n\t\tcl[k] = v\n\t}\n\treturn cl",note="the 'copy' shares storage with the original")
+m("c15-clear-keeps-zero-keyed",["C15"],"memio.go","\tfor k := range mm {\n\t\tdelete(mm, k)\n\t}","\tfor k, v := range mm {\n\t\tif v != 0 || k != 0 {\n\t\t\tdelete(mm, k)\n\t\t}\n\t}",note="an entry (0 -> 0) survives Clear")
+m("c15-put-no-increment",["C15"],"memio.go","\t\tmm[addr] = v\n\t\taddr++\n","\t\tmm[addr] = v\n")
+m("c15-put-stops-at-ffff",["C15"],"memio.go","\t\tmm[addr] = v\n\t\taddr++\n","\t\tmm[addr] = v\n\t\tif addr == 0xffff {\n\t\t\tbreak\n\t\t}\n\t\taddr++\n",note="no wrap past 0xFFFF")
+m("c15-equal-lengths-only",["C15"],"memio.go","return reflect.DeepEqual(mm, a)","return len(mm) == len(a) && (len(mm) == 0 || reflect.DeepEqual(mm, a))",note="a nil and an empty MapMemory compare equal")
+m("c15-dumbio-out-masks-value",["C15"],"memio.go","\tdio[addr] = value\n","\tdio[addr] = value & 0x7f\n")
+m("c15-set-stores-at-mirror",["C15"],"memio.go","func (mm MapMemory) Set(addr uint16, v uint8) {\n\tmm[addr] = v","func (mm MapMemory) Set(addr uint16, v uint8) {\n\tmm[addr&0x7fff|addr&0x8000] = v",expect="silent",note="identity written in a roundabout way")
+m("c15-get-refactor",["C15"],"memio.go","\tv, ok := mm[addr]\n\tif !ok {\n\t\treturn 0xC7 // RST 0\n\t}\n\treturn v","\tif v, ok := mm[addr]; ok {\n\t\treturn v\n\t}\n\treturn 0xC7",expect="silent")
+
 json.dump(M,open("controls.json","w"),indent=1)
 print(len(M),"controls")
